@@ -55,6 +55,20 @@ Withdraw(s, c, u, coll, debt, prem, amt, denom) ==
          IN IF s.bal["a2"][denom] < out THEN LFail(s)
             ELSE LOk([s EXCEPT !.dep[i].amt = @ - amt, !.bal = LMove(@, "a2", u, denom, out), !.total = @ - amt])
 
+(* Automatic fill (LimitOrderBid in the begin blocker): used[i] units of deposit i are placed as a bid on a Dutch  *)
+(* auction whose falling price has reached the deposit's premium - the whole deposit when it does not exceed the  *)
+(* auction's remaining debt (the record is then deleted), otherwise exactly the remaining debt. How much is used   *)
+(* depends on the auction (environment); the book must follow: deposits shrink by what was used, the pair total   *)
+(* by the sum.                                                                                                     *)
+RECURSIVE USum(_)
+USum(q) == IF q = <<>> THEN 0 ELSE Head(q) + USum(Tail(q))
+FillOk(s, used) == /\ Len(used) = Len(s.dep)
+                   /\ \A i \in 1..Len(used) : used[i] >= 0 /\ (used[i] > 0 => used[i] <= s.dep[i].amt)
+Fill(s, used) ==
+  LET upd == [i \in 1..Len(s.dep) |-> [s.dep[i] EXCEPT !.amt = @ - used[i]]]
+      keep == SelectSeq([i \in 1..Len(upd) |-> [e |-> upd[i], u |-> used[i]]], LAMBDA x : x.u = 0 \/ x.e.amt > 0)
+  IN [s EXCEPT !.dep = [i \in 1..Len(keep) |-> keep[i].e], !.total = @ - USum(used)]
+
 (* =========================== C11, limit bids =========================== *)
 RECURSIVE LSum(_)
 LSum(q) == IF q = <<>> THEN 0 ELSE Head(q) + LSum(Tail(q))
